@@ -203,65 +203,162 @@ print("srcfacts: %d constants, %d step lists" % (len(consts), 15))
 # so that the lemmas over these lists FAIL instead of passing silently.
 
 
+def close_paren(body, j):
+    """index of the parenthesis closing the one at j"""
+    depth = 0
+    while j < len(body):
+        if body[j] == "(":
+            depth += 1
+        elif body[j] == ")":
+            depth -= 1
+            if depth == 0:
+                return j
+        j += 1
+    return len(body) - 1
+
+
+def block_after(body, j):
+    """text of the brace block starting at the first `{` at or after j"""
+    i = body.find("{", j)
+    if i < 0:
+        return ""
+    depth, k = 0, i
+    while k < len(body):
+        if body[k] == "{":
+            depth += 1
+        elif body[k] == "}":
+            depth -= 1
+            if depth == 0:
+                return body[i:k + 1]
+        k += 1
+    return body[i:]
+
+
+ADAPTERS = r"\s*\.\s*(map_err|context|with_context|map|and_then)\s*\("
+
+
+def is_checked(body, start, end):
+    """Is the result of the call body[start:end+1] examined?  The translator knows the shapes that DROP a
+    result and treats everything else (the value flows on: `?`, tail expression, match arm value, argument,
+    `return call`, bound to a named variable, `match call { Err(..) => return Err.. }`) as examined:
+      dropped:  `call;`   `let _ = call;`   `call.ok()` / `.is_ok()` / `.is_err()` / `.unwrap_or..`
+                `if let Err(..) = call { <no return / ?> }`   `match call { <no Err arm that leaves> }`"""
+    j = end + 1
+    rest = body[j:]
+    while True:
+        m = re.match(ADAPTERS, rest)
+        if not m:
+            break
+        k = close_paren(rest, m.end() - 1)
+        rest = rest[k + 1:]
+    r = rest.lstrip()
+    if r.startswith("?"):
+        return True
+    if re.match(r"\.\s*(ok|is_ok|is_err|unwrap_or|unwrap_or_default|unwrap_or_else|err)\s*\(", r):
+        return False
+    before = body[:start]
+    line_start = max(before.rfind("\n"), before.rfind(";"), before.rfind("{")) + 1
+    lead = before[line_start:]
+    if re.search(r"\blet\s+_\w*\s*(:[^=]+)?=\s*[\w\s.:&()]*$", lead):
+        return False
+    if re.search(r"\bif\s+let\s+Err\s*\([^)]*\)\s*=\s*[\w\s.:&()]*$", lead):
+        blk = block_after(body, end)
+        return bool(re.search(r"return\s+Err|\?\s*;|Err\s*\(", blk[1:]))
+    if re.search(r"\bmatch\s+[\w\s.:&()]*$", lead):
+        blk = block_after(body, end)
+        return bool(re.search(r"Err\s*\([^)]*\)\s*=>\s*\{?\s*(return\s+)?Err", blk))
+    if r.startswith(";"):
+        if re.search(r"\breturn\s+[\w\s.:&()]*$", lead):
+            return True
+        if re.search(r"(\blet\s+(mut\s+)?[A-Za-z]\w*\s*(:[^=]+)?=|\b[A-Za-z]\w*\s*=)\s*[\w\s.:&()]*$", lead):
+            return True
+        return False
+    return True
+
+
 def call_sites(body, pat):
-    """[(name, checked)] for every occurrence of `pat` (a regex with one group = the reported name,
-    ending just before the opening parenthesis) in textual order"""
+    """[(position, name, checked)] for every occurrence of `pat` (a regex with one group = the
+    reported name, ending just before the opening parenthesis) in textual order"""
     res = []
     for m in re.finditer(pat + r"\s*\(", body):
-        j, depth = m.end() - 1, 0
-        while j < len(body):
-            if body[j] == "(":
-                depth += 1
-            elif body[j] == ")":
-                depth -= 1
-                if depth == 0:
-                    break
-            j += 1
-        rest = body[j + 1:]
-        checked = rest.lstrip().startswith("?") or rest.strip() == "}"
-        res.append((m.start(), m.group(1), checked))
+        j = close_paren(body, m.end() - 1)
+        res.append((m.start(), m.group(1), is_checked(body, m.start(), j)))
     return res
 
 
-SYNC_FALLIBLE = [
-    ("bitbox_wait_pre_meta", r"bitbox_sync\s*\.\s*(wait_pre_meta)"),
-    ("beatree_wait_pre_meta", r"beatree_sync\s*\.\s*(wait_pre_meta)"),
-    ("meta_write", r"Meta::(write)"),
-    ("bitbox_post_meta", r"bitbox_sync\s*\.\s*(post_meta)"),
-    ("rollback_wait_post_meta", r"rollback\s*\.\s*(wait_post_meta)"),
-]
+# the fallible calls of Sync::sync, identified by METHOD name and occurrence (the names of the local
+# variables holding the three sync controllers are free to change): the two `wait_pre_meta` calls in
+# their order (hash table first, value files second - the order of the model's steps), `Meta::write`,
+# the `post_meta` call that takes an argument (the hash-table write-out; the other two take none and
+# return nothing), `wait_post_meta`.
+def nth_sites(body, pat, names):
+    sites = call_sites(body, pat)
+    out = []
+    for i, nm in enumerate(names):
+        if i < len(sites):
+            out.append((sites[i][0], nm, sites[i][2]))
+        else:
+            out.append((10 ** 9, nm, False))      # absent: listed last, not checked
+    for extra in sites[len(names):]:
+        out.append((extra[0], names[-1] + "_extra", extra[2]))
+    return out
+
+
 sync_calls = []
-for name, pat in SYNC_FALLIBLE:
-    sites = call_sites(sync_body, pat)
-    if not sites:
-        sync_calls.append((10 ** 9, name, False))       # absent: listed last, not checked
-    for pos, _, checked in sites:
-        sync_calls.append((pos, name, checked))
+sync_calls += nth_sites(sync_body, r"\.\s*(wait_pre_meta)", ["bitbox_wait_pre_meta", "beatree_wait_pre_meta"])
+sync_calls += nth_sites(sync_body, r"Meta::(write)", ["meta_write"])
+sync_calls += nth_sites(sync_body, r"\.\s*(post_meta)(?=\s*\(\s*[^)\s])", ["bitbox_post_meta"])
+sync_calls += nth_sites(sync_body, r"\.\s*(wait_post_meta)", ["rollback_wait_post_meta"])
 sync_calls.sort()
-# every `?` of Sync::sync: a new fallible call that the model does not know changes this count
-sync_try_count = len(re.findall(r"\?", sync_body))
+# every point of Sync::sync at which an error leaves the function: `?` and `return Err` - a new fallible
+# call that the model does not know about changes this count
+sync_try_count = len(re.findall(r"\?", sync_body)) + len(re.findall(r"return\s+Err", sync_body))
 
 IO_CALL = r"\.\s*(write_all_at|write_all|set_len|sync_all|sync_data|fsync)"
 segrw = strip_comments(read("nomt/src/seglog/segment_rw.rs"))
+
+
+def local_fns(src):
+    return set(re.findall(r"\bfn\s+(\w+)\s*[<(]", src))
+
+
+def io_sites(src, body, pat, depth=0):
+    """I/O call sites of a function body, following calls to functions of the same file (a body split
+    into helpers keeps its facts): a helper's sites count as checked only if the helper call is"""
+    out = [(c, k) for _, c, k in call_sites(body, pat)]
+    if depth >= 2:
+        return out
+    for name in sorted(local_fns(src)):
+        for pos, _, checked in call_sites(body, r"(?<![\w.])(?:Self::|self\.)?(" + name + r")"):
+            hb = fn_body(src, r"fn\s+" + name + r"\s*[<(][^{]*\{")
+            if not hb or hb == body:
+                continue
+            for c, k in io_sites(src, hb, pat, depth + 1):
+                out.append((c, k and checked))
+    return out
+
+
+SEG_CALL = r"\.\s*(create_segment|write_header|write_payload|fsync|sync_all|sync_data)"
 io_fns = [
-    ("write_wal", fn_body(wo, r"fn write_wal\([^{]*\{"), IO_CALL),
-    ("truncate_wal", fn_body(wo, r"fn truncate_wal\([^{]*\{"), IO_CALL),
-    ("write_ht", fn_body(wo, r"fn write_ht\([^{]*\{"), IO_CALL),
-    ("meta_write", fn_body(meta, r"pub fn write\([^{]*\{"), IO_CALL),
-    ("seglog_append", fn_body(seg, r"pub fn append\([^{]*\{"),
-     r"\.\s*(create_segment|write_header|write_payload|fsync|sync_all|sync_data)"),
-    ("segment_write_header", fn_body(segrw, r"pub fn write_header\([^{]*\{"), IO_CALL),
-    ("segment_write_payload", fn_body(segrw, r"pub fn write_payload\([^{]*\{"), IO_CALL),
-    ("segment_fsync", fn_body(segrw, r"pub fn fsync\([^{]*\{"), IO_CALL),
+    ("write_wal", wo, fn_body(wo, r"fn write_wal\([^{]*\{"), IO_CALL),
+    ("truncate_wal", wo, fn_body(wo, r"fn truncate_wal\([^{]*\{"), IO_CALL),
+    ("write_ht", wo, fn_body(wo, r"fn write_ht\([^{]*\{"), IO_CALL),
+    ("meta_write", meta, fn_body(meta, r"pub fn write\([^{]*\{"), IO_CALL),
+    ("seglog_append", seg, fn_body(seg, r"pub fn append\([^{]*\{"), SEG_CALL),
+    ("segment_write_header", segrw, fn_body(segrw, r"pub fn write_header\([^{]*\{"), IO_CALL),
+    ("segment_write_payload", segrw, fn_body(segrw, r"pub fn write_payload\([^{]*\{"), IO_CALL),
+    ("segment_fsync", segrw, fn_body(segrw, r"pub fn fsync\([^{]*\{"), IO_CALL),
 ]
 io_calls = []
-for fname, body, pat in io_fns:
-    for _, cname, checked in call_sites(body, pat):
+for fname, src, body, pat in io_fns:
+    seen = set()
+    for cname, checked in io_sites(src, body, pat):
         io_calls.append((fname, cname, checked))
-# completions of the asynchronous hash-table writes (write_ht): `recv().unwrap().result?`
-for m in re.finditer(r"\.recv\(\)\s*\.unwrap\(\)\s*\.(result)\b", fn_body(wo, r"fn write_ht\([^{]*\{")):
-    rest = fn_body(wo, r"fn write_ht\([^{]*\{")[m.end():]
-    io_calls.append(("write_ht", "recv_result", rest.lstrip().startswith("?")))
+# completions of the asynchronous hash-table writes (write_ht): every received completion's `result` is
+# propagated (`recv().unwrap().result?`, or bound to a name first and then `<name>.result?`)
+_wht = fn_body(wo, r"fn write_ht\([^{]*\{")
+if re.search(r"\.\s*recv\s*\(\s*\)", _wht):
+    io_calls.append(("write_ht", "recv_result", bool(re.search(r"\.\s*result\s*\?", _wht))))
 
 
 def coq_bool(b):
